@@ -383,6 +383,104 @@ def _single_inv(info, qs, vals, cs, n):
     return qgates.gate_full_matrix(d.dagger(), n) @ qgates.gate_full_matrix(g, n)
 
 
+def matrix_valued_search(ctx):
+    """gates whose parameter IS a matrix (Unitary on 1-3 qubits in any target order,
+    GeneralizedfSim with a generic non-symmetric block): dagger = adjoint, controlled_by =
+    controlled operator, on_qubits (gate and circuit level, dict maps in any key order) =
+    relabelling, also after a parameter update; compared as full 2^n matrices."""
+    from qibo import Circuit, gates
+
+    nb = qgates.np_backend()
+    rng = ctx.rng
+
+    def unitary(d, symmetric=False):
+        a = np.array([[complex(rng.gauss(0, 1), rng.gauss(0, 1)) for _ in range(d)] for _ in range(d)])
+        q, r = np.linalg.qr(a)
+        return q * (np.diag(r) / np.abs(np.diag(r)))
+
+    def full(g, n):
+        return qgates.gate_full_matrix(g, n)
+
+    bad = 0
+    ncases = 90 if ctx.thorough else 30
+    for _ in range(ncases):
+        n = rng.randint(2, 4)
+        kind = rng.choice(["Unitary", "Unitary", "GeneralizedfSim"])
+        if kind == "Unitary":
+            k = rng.randint(1, min(3, n))
+            qs = rng.sample(range(n), k)
+            u0, u1 = unitary(2**k), unitary(2**k)
+            make = lambda u, qs: gates.Unitary(u, *qs)
+            par0, par1 = u0, u1
+            src = lambda u, qs: f"gates.Unitary(np.array({np.round(u, 12).tolist()}), *{list(qs)})"
+        else:
+            qs = rng.sample(range(n), 2)
+            par0, par1 = (unitary(2), rng.uniform(-3, 3)), (unitary(2), rng.uniform(-3, 3))
+            make = lambda p, qs: gates.GeneralizedfSim(qs[0], qs[1], p[0], p[1])
+            src = lambda p, qs: f"gates.GeneralizedfSim({qs[0]}, {qs[1]}, np.array({np.round(p[0], 12).tolist()}), {p[1]!r})"
+        updated = rng.random() < 0.5
+
+        def newg():  # a fresh object per check: controlled_by configures the gate in place
+            g_ = make(par0, qs)
+            if updated:
+                g_.parameters = par1
+            return g_
+
+        cur = par1 if updated else par0
+        ref = full(make(cur, qs), n)
+        rest = [q for q in range(n) if q not in qs]
+        pre = "import numpy as np\nfrom qibo import gates, Circuit\n" + f"g = {src(par0, qs)}\n" + (f"g.parameters = {('np.array(' + str(np.round(par1, 12).tolist()) + ')') if kind == 'Unitary' else '(np.array(' + str(np.round(par1[0], 12).tolist()) + '), ' + repr(par1[1]) + ')'}\n" if updated else "")
+        checks = []
+        # dagger
+        checks.append(("dagger", lambda: full(newg().dagger(), n), ref.conj().T, "d = g.dagger()"))
+        # controlled_by with 1..2 controls
+        if rest:
+            cs = rng.sample(rest, rng.randint(1, min(2, len(rest))))
+            P1 = np.zeros((2**n, 2**n), dtype=complex)
+            for i in range(2**n):
+                if all((i >> (n - 1 - c)) & 1 for c in cs):
+                    P1[i, i] = 1
+            expc = (np.eye(2**n) - P1) + P1 @ ref
+            checks.append((f"controlled_by{len(cs)}", lambda cs=cs: full(newg().controlled_by(*cs), n), expc, f"c = g.controlled_by(*{cs})"))
+            checks.append((f"dagger_cb{len(cs)}", lambda cs=cs: full(newg().controlled_by(*cs).dagger(), n), expc.conj().T, f"c = g.controlled_by(*{cs}).dagger()"))
+        # on_qubits with a dict whose key order is shuffled
+        perm = list(range(n))
+        rng.shuffle(perm)
+        keys = list(range(n))
+        rng.shuffle(keys)
+        qmap = {k_: perm[k_] for k_ in keys}
+        expo = full(make(cur, [perm[q] for q in qs]), n)
+        checks.append(("on_qubits", lambda: full(newg().on_qubits(qmap), n), expo, f"o = g.on_qubits({qmap})"))
+        # circuit level: on_qubits of a circuit into a larger one, invert
+        def circ_on():
+            c = Circuit(n)
+            c.add(newg())
+            big = Circuit(n)
+            big.add(c.on_qubits(*perm))
+            return np.asarray(big.unitary(nb))
+        checks.append(("circuit_on_qubits", circ_on, expo, f"c = Circuit({n}); c.add(g); big = Circuit({n}); big.add(c.on_qubits(*{perm}))"))
+        def circ_inv():
+            c = Circuit(n)
+            c.add(newg())
+            return np.asarray(c.invert().unitary(nb))
+        checks.append(("circuit_invert", circ_inv, ref.conj().T, f"c = Circuit({n}); c.add(g); i = c.invert()"))
+        for name, fn, expected, snippet in checks:
+            ctx.case(("matrix-valued", kind, name, tuple(qs), updated))
+            try:
+                got = fn()
+                ok = np.allclose(got, expected, atol=1e-9)
+                obs = None if ok else np.round(got, 6).tolist()
+            except Exception as e:  # noqa: BLE001
+                ok, obs = False, f"raises {type(e).__name__}: {e}"
+            if not ok:
+                bad += 1
+                ctx.fail(f"{name}:{kind}" + (":updated" if updated else ""),
+                         f"{name} of {kind} on qubits {qs} (n={n}{', after a parameter update' if updated else ''}) is not the expected operator",
+                         pre + snippet + f"\nexpected = np.array({np.round(expected, 10).tolist()})\n# compare the full {n}-qubit matrix of the result with `expected`\n",
+                         expected=str(np.round(expected, 6).tolist())[:400], observed=str(obs)[:400], broken=["C05_search_matrix_valued"])
+    ctx.ob("C05_search_matrix_valued", bad == 0, "search", f"{bad} failures" if bad else "")
+
+
 def run(ctx):
     MODULES, THEOREMS = registry(PROP)
     ctx.theorems = THEOREMS
@@ -390,4 +488,5 @@ def run(ctx):
     build_and_audit(ctx, PROP, MODULES, THEOREMS, gen_obs=True)
     gate_search(ctx, raised)
     circuit_search(ctx)
+    matrix_valued_search(ctx)
     ctx.notes.append("per class: symbolic obligations (all parameter values) for dagger, dagger∘controlled_by, controlled_by(1,2), on_qubits, and the same after a parameter update; numeric search on the real methods incl. 3 controls and random relabellings; random circuits for invert/copy/+/on_qubits")
